@@ -766,7 +766,7 @@ def spec_classes(spec):
     out += [f"measure:{m}" for m in sorted({i['m'] for i in spec["integrals"]})]
     out.append(f"nintegrals:{len(spec['integrals'])}")
     for f in spec.get("_features", []):
-        if f.startswith(("fun:", "op:", "geo:", "L:", "restr:", "transform:", "argument-inside-conditional:")) or f in (
+        if f.startswith(("fun:", "op:", "geo:", "L:", "restr:", "transform:", "argument-inside-conditional:", "template:")) or f in (
                 "split", "tensor-coefficient", "multiterm", "factor-on-test-side", "complex-literal-on-test-side", "quadrature-element-coefficient",
                 "tp-variant-sibling"):
             out.append(f)
@@ -900,3 +900,136 @@ def expr_classes(spec):
         if f.startswith(("exprkind:", "fun:", "geo:", "L:", "op:")) or f == "split":
             out.append(f)
     return out
+
+
+# ---------------------------------------------------------------------------------------
+# template layer (DESIGN.md 3.2): the standard forms of the demos/tests, instantiated over cells, degrees and geometry
+# ---------------------------------------------------------------------------------------
+
+def _n(restr=None):
+    t = ["geo", "n"]
+    return [restr, t] if restr else t
+
+
+TEMPLATES = {
+    # name: (measures, arity, needs)
+    "mass": "dx", "stiffness": "dx", "helmholtz-coefficient": "dx", "elasticity": "dx", "convection": "dx", "hyperelastic-derivative": "dx",
+    "mixed-poisson": "dx", "curl-curl": "dx", "stokes": "dx",
+    "dg-avg-avg": "dS", "dg-jump-jump": "dS", "dg-interior-penalty": "dS", "dg-upwind": "dS", "nitsche-boundary": "ds", "facet-normal-flux": "ds",
+}
+
+
+@st.composite
+def template_specs(draw, profile=None):
+    """Instances of well-known variational forms (the demos' and tests' repertoire) as specs."""
+    pr = dict(DEFAULT_PROFILE)
+    pr.update(profile or {})
+    names = [n for n, m in TEMPLATES.items() if m in pr["measures"] or (m == "dx" and "dx" in pr["measures"])]
+    if pr.get("templates"):
+        names = [n for n in names if n in pr["templates"]]
+    name = draw(st.sampled_from(names))
+    simplex_only = name in ("mixed-poisson", "curl-curl", "stokes")
+    cells = [c for c in pr["cells"] if c != "prism" and not (simplex_only and c not in ("triangle", "tetrahedron"))]
+    if name in ("elasticity", "convection", "hyperelastic-derivative", "stokes", "curl-curl", "dg-upwind", "facet-normal-flux", "nitsche-boundary", "dg-interior-penalty"):
+        cells = [c for c in cells if TDIM[c] >= 2]
+    cell = draw(st.sampled_from(cells))
+    tdim = gdim = TDIM[cell]
+    cdeg = 2 if (prob(draw, pr["nonaffine"]) and not pr.get("affine_only")) else 1
+    deg = draw(st.integers(1, 2 if tdim == 3 else min(pr["maxdeg"], 3)))
+    dc = name.startswith("dg-") and draw(st.booleans())
+    P = ["el", "P", deg, {"dc": True} if dc else {}]
+    vecP = ["el", "P", deg, {"shape": [gdim]}]
+    u, v, f, g_ = ["u"], ["v"], ["f", 0], ["f", 1]
+    spec = {"kind": "form", "cell": cell, "gdim": gdim, "cdeg": cdeg, "elements": [P], "args": [0, 0], "coefs": [], "consts": [], "integrals": []}
+    md = {"quadrature_degree": draw(st.integers(max(1, deg), 2 * deg + 1))} if draw(st.booleans()) else {}
+
+    def add(m, e, sid=None, md_=None):
+        spec["integrals"].append({"m": m, "id": sid, "md": dict(md if md_ is None else md_), "e": e})
+
+    if name == "mass":
+        add("dx", ["inner", u, v])
+    elif name == "stiffness":
+        add("dx", ["inner", ["grad", u], ["grad", v]])
+    elif name == "helmholtz-coefficient":
+        spec["elements"].append(["el", "P", 1, {}])
+        spec["coefs"] = [1]
+        spec["consts"] = [[]]
+        add("dx", ["sub", ["mul", ["add", ["lit", 1.0], ["mul", f, f]], ["inner", ["grad", u], ["grad", v]]], ["mul", ["c", 0], ["inner", u, v]]])
+    elif name == "elasticity":
+        spec["elements"] = [vecP]
+        eps_u, eps_v = ["sym", ["grad", u]], ["sym", ["grad", v]]
+        add("dx", ["add", ["mul", ["lit", 2.0], ["inner", eps_u, eps_v]], ["mul", ["lit", 0.5], ["mul", ["div", u], ["div", v]]]])
+    elif name == "convection":
+        spec["elements"] = [P, vecP]
+        spec["coefs"] = [1]
+        add("dx", ["mul", ["dot", f, ["grad", u]], v])
+    elif name == "hyperelastic-derivative":
+        spec["elements"] = [vecP]
+        spec["args"] = [0]
+        spec["coefs"] = [0]
+        F_ = ["add", ["raw", f"ufl.Identity({gdim})"], ["grad", f]]
+        C_ = ["dot", ["T", F_], F_]
+        J_ = ["det", F_]
+        psi = ["add", ["mul", ["lit", 0.5], ["sub", ["tr", C_], ["lit", float(gdim)]]], ["mul", ["lit", 0.25], ["pow", ["sub", J_, ["lit", 1.0]], ["lit", 2]]]]
+        spec["integrals"].append({"m": "dx", "id": None, "md": {"quadrature_degree": min(2 * deg + 1, 4)}, "e": ["mul", psi, ["lit", 1.0]]})
+        # energy functional -> residual by differentiation w.r.t. f0 (arity 0 functional compiled through `derivative`)
+        spec["args"] = []
+        spec["transform"] = ["derivative", 0]
+    elif name == "mixed-poisson":
+        rt = draw(st.sampled_from(["RT", "BDM"]))
+        spec["elements"] = [["mixed", [["el", rt, deg if deg < 3 else 2, {}], ["el", "P", max((deg if deg < 3 else 2) - 1, 0), {"dc": True}]]]]
+        s_, p_ = ["split", u, 0], ["split", u, 1]
+        t_, q_ = ["split", v, 0], ["split", v, 1]
+        add("dx", ["add", ["add", ["inner", s_, t_], ["mul", ["div", t_], p_]], ["mul", ["div", s_], q_]])
+    elif name == "curl-curl":
+        spec["elements"] = [["el", "N1curl", min(deg, 2), {}]]
+        add("dx", ["add", ["inner", ["curl", u], ["curl", v]], ["inner", u, v]])
+    elif name == "stokes":
+        spec["elements"] = [["mixed", [["el", "P", 2, {"shape": [gdim]}], ["el", "P", 1, {}]]]]
+        uu, pp, vv, qq = ["split", u, 0], ["split", u, 1], ["split", v, 0], ["split", v, 1]
+        add("dx", ["sub", ["sub", ["inner", ["grad", uu], ["grad", vv]], ["mul", ["div", vv], pp]], ["mul", qq, ["div", uu]]])
+    elif name == "dg-avg-avg":
+        add("dS", ["mul", ["avg", u], ["avg", v]])
+    elif name == "dg-jump-jump":
+        add("dS", ["mul", ["jump", u], ["jump", v]])
+    elif name == "dg-interior-penalty":
+        ju, jv = ["jumpn", u], ["jumpn", v]
+        add("dS", ["add", ["sub", ["neg", ["inner", ["avg", ["grad", u]], jv]], ["inner", ju, ["avg", ["grad", v]]]],
+                   ["mul", ["lit", 4.0], ["mul", ["jump", u], ["jump", v]]]])
+        if draw(st.booleans()):
+            add("dx", ["inner", ["grad", u], ["grad", v]])
+    elif name == "dg-upwind":
+        spec["elements"] = [P, vecP]
+        spec["coefs"] = [1]
+        bn = ["dot", ["+", f], _n("+")]
+        up = ["mul", ["lit", 0.5], ["add", bn, ["abs", bn]]]
+        add("dS", ["mul", ["mul", up, ["sub", ["+", u], ["-", u]]], ["jump", v]])
+    elif name == "nitsche-boundary":
+        add("ds", ["add", ["sub", ["neg", ["mul", ["dot", ["grad", u], _n()], v]], ["mul", ["dot", ["grad", v], _n()], u]], ["mul", ["lit", 10.0], ["mul", u, v]]],
+            sid=draw(st.sampled_from([None, 1])))
+    elif name == "facet-normal-flux":
+        spec["elements"] = [P, vecP]
+        spec["args"] = [0]
+        spec["coefs"] = [1]
+        add("ds", ["mul", ["dot", f, _n()], v])
+    # optional scalar coefficient factor on every integral
+    if name in ("mass", "stiffness", "dg-avg-avg", "dg-jump-jump", "curl-curl") and draw(st.booleans()):
+        spec["elements"].append(["el", "P", 1, {}])
+        spec["coefs"] = [len(spec["elements"]) - 1]
+        for I in spec["integrals"]:
+            k = ["f", 0] if I["m"] != "dS" else ["+", ["f", 0]]
+            I["e"] = ["mul", ["add", ["lit", 1.5], ["mul", k, k]], I["e"]]
+    spec["_tags"] = ["template"]
+    spec["_features"] = ["template:" + name]
+    spec["data_seed"] = draw(st.integers(0, 2**31 - 1))
+    return spec
+
+
+def forms(profile=None, grammar=3, templates=1):
+    """Grammar-generated forms with a share of template instances (same profile: measures, cells, maxdeg, nonaffine)."""
+    pr = dict(DEFAULT_PROFILE)
+    pr.update(profile or {})
+    if not any(m in pr["measures"] or m == "dx" and "dx" in pr["measures"] for m in TEMPLATES.values()) or pr.get("tp") or pr.get("complex"):
+        return form_specs(profile)
+    tpl_profile = dict(profile or {})
+    return st.one_of(*([form_specs(profile)] * grammar + [template_specs(tpl_profile)] * templates))
